@@ -142,6 +142,12 @@ class HLight(Hooks, LightNodeMixin):
             self.children = children
 
 
+class HLightSub(HLight):
+    """Subclass of a __slots__ node class that adds a slot of its own."""
+
+    __slots__ = ("weight",)
+
+
 class HNode(Hooks, Node):
     pass
 
@@ -169,6 +175,20 @@ class UserAttrs(NodeMixin):
         self.parent = parent
         if children:
             self.children = children
+
+
+class HNodeRO(Hooks, Node):
+    """Node class with a read-only property: assignments to `_bar` are refused with AttributeError."""
+
+    @property
+    def _bar(self):
+        return "ro"
+
+
+class HAnyRO(Hooks, AnyNode):
+    @property
+    def _bar(self):
+        return "ro"
 
 
 class HNodeSemi(Hooks, Node):
